@@ -153,6 +153,7 @@ func registerIntrinsics(m *Machine) {
 		return nil
 	}
 	I["vf:vfB2U"] = func(m *Machine, fr *frame, a []Value) Value { return c.BoolToBV(m.term(a[0]), 64) } // branch-free
+	I["vf:vfSelect"] = func(m *Machine, fr *frame, a []Value) Value { return c.Ite(m.term(a[0]), m.term(a[1]), m.term(a[2])) } // branch-free
 	I["vf:vfSymbolic"] = func(m *Machine, fr *frame, a []Value) Value { return c.True }
 
 	// ----- fmt / errors / os -----
